@@ -233,6 +233,10 @@ def randomgen_corpus():
     add(D([A2, B2, window('W', 'A', 3)], cross('ABW', 'W')))
     add(D([A2, B2, window('W', 'A', 3)], cross('ABW', 'BW')))
     add(D([A2, B2, window('W', 'A', 3, preds=(('first', 'a0'), 'else'))], cross('ABW', 'W')))
+    # crossed within-trial derived factor over a weighted uncrossed factor
+    add(D([A2, B2, CW, within('G', ['C', 'B'], preds=(('table', [['c0', 'b0'], ['c1', 'b1']]), 'else'))],
+          cross('ABCG', 'G', [['AtMostKInARow', 1, 'G', 'g1']])))
+    add(D([A2, CW, within('G', ['A', 'C'], preds=(('table', [['a0', 'c0'], ['a1', 'c1']]), 'else'))], cross('ACG', 'AG')))
     # nest with an uncrossed outer factor listed before the crossed one
     add(D([A2, B2, C2], nest(cross('CA', 'A'), cross('B', 'B'))))
     add(D([A2, B2, C2], nest(cross('CA', 'A'), cross('B', 'B', [['Pin', 0, 'B', 'b1']]))))
